@@ -115,6 +115,12 @@ def concrete_operator(kind, cfg, rng, n=None, dims=None):
             for i in range(ar):
                 r = int(rng.integers(1, 4))
                 ds.append((r, r) if (sqr or kind == "KronSum") else (r, int(rng.integers(1, 4))))
+            if kind == "Kronecker" and not sqr and cfg.get("square_total", False) and ar >= 2:
+                # non-square factors with a SQUARE product (the functions that take such a witness require a square operand): (a x b) (x) (b x a) (x) squares
+                a_, b_ = int(rng.integers(1, 4)), int(rng.integers(1, 4))
+                if a_ == b_:
+                    b_ = a_ + 1
+                ds = [(a_, b_), (b_, a_)] + [(int(rng.integers(1, 3)),) * 2 for _ in range(ar - 2)]
         part_ann = ann if kind in ("Kronecker", "BlockDiag", "Sum", "KronSum") else ()
         if kind == "Product" and "Unitary" in ann:
             part_ann = ("Unitary",)
@@ -302,6 +308,8 @@ def main():
     fname, choice, cfg = witness["fn"], witness["choice"], witness.get("cfg", {})
     if fname in ("exp", "apply_unary"):
         cfg = dict(cfg, allow_singular=True)
+    if fname in ("diag", "trace"):
+        cfg = dict(cfg, square_total=True)       # these functions take square operands: a Kronecker witness with non-square factors still has a square product
     try:    # paths through vmap / linear_transpose need the replay shim on the NumPy backend
         from replay import np_shim
         np_shim.install()
